@@ -515,6 +515,14 @@ Proof.
   rewrite IH. reflexivity.
 Qed.
 
+(** Histories of API calls with crashes inside them are traces, so the characterisation of the
+    replay set holds for the state they leave. *)
+Theorem crash_anywhere_in_api_calls (p : policy) (me : author) (h : list (op * option nat)) (r : row) :
+  In r (replay_entries (run_hist p me h)) <->
+  In r (rows (run_hist p me h)) /\ r_log r = tlog /\
+  ~ exists a, In a (acked_of tlog (trace_hist p me empty h)) /\ rkey a = rkey r /\ (r_seq r <= r_seq a)%N.
+Proof. apply replay_iff_not_acked. Qed.
+
 (** Every state of [cut_states] is the state after a prefix of the plan. *)
 Lemma cut_states_In (p : policy) (me : author) (d : durable) (o : op) (lo : nat) (x : durable) :
   In x (cut_states tlog p me d o lo) ->
